@@ -543,6 +543,35 @@ def stale_captures(repo, rep):
     rep.floor("R-C11-15", "coordinate captures in the writers", ncap, 8)
 
 
+def _lon_rewraps(tree, const):
+    out = []
+    for b in ast.walk(tree):
+        if isinstance(b, ast.BinOp) and isinstance(b.op, (ast.Mod, ast.Add, ast.Sub)) and const(b.right) == 360:
+            names = {x.id.lower() for x in ast.walk(b.left) if isinstance(x, ast.Name)} | {x.attr.lower() for x in ast.walk(b.left) if isinstance(x, ast.Attribute)}
+            if any(n in ("x", "lon", "lons", "longitude", "longitudes", "lonname") or n.startswith("lon") for n in names):
+                out.append(b)
+    return out
+
+
+def coordinates_written_as_given(repo, rep):
+    """R-C11-17: positions are written in the convention the dataset uses: no +-360 / % 360 on longitudes in any write path."""
+    rep.rule("R-C11-17", "the write paths store longitudes as the dataset gives them (no % 360 / +-360 re-wrapping): the matching reader returns what the file "
+                         "holds, so a re-wrapped longitude comes back in another convention than it was written from")
+    if len(_lon_rewraps(ast.parse("a = self.x % 360\nb = lon + 360\nc = (270 - dir) % 360"), lambda e: e.value if isinstance(e, ast.Constant) else None)) != 2:
+        raise AnalysisError("R-C11-17 self-test: longitude re-wrapping idioms not recognised")
+    n = 0
+    for fi in repo.all_funcs():
+        if not (fi.qualname.startswith("wavespectra.output.") or (fi.qualname.startswith("wavespectra.core.swan.SwanSpecFile.") and fi.name.startswith("write"))):
+            continue
+        n += 1
+        for b in _lon_rewraps(fi.node, lambda e, fi=fi: repo.const(fi.module, e)):
+            rep.fail("R-C11-17", fi.file, b.lineno, fi.qualname, unparse(b)[:100],
+                     "a longitude is re-wrapped on its way into the file: stations west of Greenwich written from a [-180, 180] dataset read back shifted by "
+                     "360 degrees (and a mixed set loses its order)")
+    rep.ok("R-C11-17", "writers", f"{n} write-path functions", "longitudes written as given")
+    rep.floor("R-C11-17", "write-path functions", n, 8)
+
+
 def run(repo, rep, tier):
     rep.rule("R-C11-16", "(shared with C05) direction bin widths are taken circularly: the width enters the variance the regridding conserves and the "
                         "energy <-> density conversion of the writers / readers")
@@ -573,6 +602,7 @@ def run(repo, rep, tier):
     chunk_loops(repo, rep)
     stack_guards(repo, rep)
     writer_purity(repo, rep)
+    coordinates_written_as_given(repo, rep)
     swan_axis_order(repo, rep)
     stale_captures(repo, rep)
     rep.rule("R-C11-11", "a per-record buffer that is filled in place and emitted once per iteration is allocated afresh inside the iteration")
